@@ -50,19 +50,19 @@ func tlaStrSet(xs []string) string {
 }
 
 type genCfg struct {
-	Alphabet string   // name of an alphabet operator in RulesAlpha.tla
-	MaxLen   int      // events after the prefix
-	Lim      Lim
-	Reasons  []string // rejection reasons owned by the property
-	Prefix   string   // TLA expression: sequence of events fed before exploration starts
-	Workers  int
-	Timeout  time.Duration
-	Simulate string // non-empty: -simulate num=...
-	Depth    int
-	Filter   string // name of a filter operator in RulesAlpha.tla (default FilterNone)
-	LateArrayReject bool // C11: an array verdict may be delivered late, up to the event completing the array (DESIGN 5.7)
-	CheckFwd bool // compare forwarded events with Forward(e) (C15)
-	Label    string
+	Alphabet        string // name of an alphabet operator in RulesAlpha.tla
+	MaxLen          int    // events after the prefix
+	Lim             Lim
+	Reasons         []string // rejection reasons owned by the property
+	Prefix          string   // TLA expression: sequence of events fed before exploration starts
+	Workers         int
+	Timeout         time.Duration
+	Simulate        string // non-empty: -simulate num=...
+	Depth           int
+	Filter          string // name of a filter operator in RulesAlpha.tla (default FilterNone)
+	LateArrayReject bool   // C11: an array verdict may be delivered late, up to the event completing the array (DESIGN 5.7)
+	CheckFwd        bool   // compare forwarded events with Forward(e) (C15)
+	Label           string
 }
 
 type genLeaf struct {
